@@ -3,9 +3,11 @@ use super::*;
 use crate::vklib::*;
 
 fn precedence(new_first: bool, legacy_ty: u16) {
+    precedence_with(new_first, legacy_ty, kani::any());
+}
+fn precedence_with(new_first: bool, legacy_ty: u16, old_rgb: [u8; 3]) {
     let mut body: Vec<u8> = Vec::with_capacity(64);
     let new_rgba: [u8; 4] = kani::any();
-    let old_rgb: [u8; 3] = kani::any();
     kani::assume(old_rgb[0] < 64 && old_rgb[1] < 64 && old_rgb[2] < 64); // valid for both legacy kinds
     for k in 0..2 {
         if (k == 0) == new_first {
@@ -90,5 +92,8 @@ fn c11_q_new_palette_then_legacy_0011() {
 #[kani::stub(std::collections::HashMap::len, crate::vklib::hm_len)]
 #[kani::stub(std::hash::RandomState::new, crate::vklib::fixed_random_state)]
 fn c11_t_legacy_0011_then_new_palette() {
-    precedence(false, 0x0011);
+    // concrete legacy components: the 0x0011 decoder's range check is a symbolic branch otherwise, the legacy map's
+    // row count in the side table stays symbolic while the new palette is decoded, and the query runs out of memory
+    // (the 6-bit decoder with symbolic components is decided in c11_q_scale_6bit / c11_t_legacy_11_*)
+    precedence_with(false, 0x0011, [63, 0, 21]);
 }
